@@ -420,6 +420,10 @@ class List(list, base.Symbolic, pg_typing.CustomTyping):
       value = value.value
       # Same as `list.insert`: an index before the head inserts at the head.
       index = max(index, 0)
+      # An item of this list that is inserted again at its own position keeps
+      # its slot (shifted by one), so the new slot must hold a copy.
+      if isinstance(value, base.Symbolic) and value.sym_parent is self:
+        value = value.clone()
 
     old_value = pg_typing.MISSING_VALUE
     # Replace an existing value.
